@@ -21,7 +21,9 @@ Fields == { [f |-> "19",  maxlen |-> 17, cur |-> FALSE], [f |-> "32A", maxlen |-
             [f |-> "32B", maxlen |-> 15, cur |-> TRUE],  [f |-> "32C", maxlen |-> 15, cur |-> TRUE],
             [f |-> "32D", maxlen |-> 15, cur |-> TRUE],  [f |-> "33B", maxlen |-> 15, cur |-> TRUE],
             [f |-> "34F", maxlen |-> 15, cur |-> TRUE],  [f |-> "36",  maxlen |-> 12, cur |-> FALSE],
-            [f |-> "37H", maxlen |-> 12, cur |-> FALSE], [f |-> "60F", maxlen |-> 15, cur |-> TRUE],
+            [f |-> "37H", maxlen |-> 12, cur |-> FALSE],
+            \* 37H with its sign letter N written (the rate is read on another path then)
+            [f |-> "37HN", maxlen |-> 12, cur |-> FALSE], [f |-> "60F", maxlen |-> 15, cur |-> TRUE],
             [f |-> "60M", maxlen |-> 15, cur |-> TRUE],  [f |-> "61",  maxlen |-> 15, cur |-> FALSE],
             [f |-> "62F", maxlen |-> 15, cur |-> TRUE],  [f |-> "62M", maxlen |-> 15, cur |-> TRUE],
             [f |-> "64",  maxlen |-> 15, cur |-> TRUE],  [f |-> "65",  maxlen |-> 15, cur |-> TRUE],
